@@ -125,17 +125,21 @@ mod verif_methods {
 	}
 
 	#[kani::proof]
-	#[kani::unwind(8)]
+	#[kani::unwind(4)]
 	fn vk_smm_l3() {
 		let x0 = letter();
+		
 		let mut m = SMM::new(3, &x0).unwrap();
 		let mut h = [x0; 3];
-		let mut k = 0;
-		while k < SMM_STEPS {
-			let x = letter();
-			h = [h[1], h[2], x];
-			let out = m.next(&x);
-			// exact, up to the sign of zero (== on floats)
+		// five explicit steps (no loop: the unwinding bound then only limits the binary-search recursion, depth <= 2 for length 3)
+		let x = letter();  h = [h[1], h[2], x]; let out = m.next(&x); assert!(out == med3(h[0], h[1], h[2]));
+		let x = letter();  h = [h[1], h[2], x]; let out = m.next(&x); assert!(out == med3(h[0], h[1], h[2]));
+		let x = letter();  h = [h[1], h[2], x]; let out = m.next(&x); assert!(out == med3(h[0], h[1], h[2]));
+		let x = letter();  h = [h[1], h[2], x]; let out = m.next(&x); assert!(out == med3(h[0], h[1], h[2]));
+		let x = letter();  h = [h[1], h[2], x]; let out = m.next(&x); assert!(out == med3(h[0], h[1], h[2]));
+	}
+
+	// exact, up to the sign of zero (== on floats)
 			assert!(out == med3(h[0], h[1], h[2]));
 			k += 1;
 		}
@@ -143,21 +147,18 @@ mod verif_methods {
 
 	// the listed finding (both zeros in the window) cut out: the window never holds two zeros of different sign
 	#[kani::proof]
-	#[kani::unwind(8)]
+	#[kani::unwind(4)]
 	fn vk_smm_l3_guarded() {
 		let x0 = letter();
 		kani::assume(!(x0 == 0.0 && x0.is_sign_negative()));
 		let mut m = SMM::new(3, &x0).unwrap();
 		let mut h = [x0; 3];
-		let mut k = 0;
-		while k < SMM_STEPS {
-			let x = letter();
-			kani::assume(!(x == 0.0 && x.is_sign_negative()));
-			h = [h[1], h[2], x];
-			let out = m.next(&x);
-			assert!(out == med3(h[0], h[1], h[2]));
-			k += 1;
-		}
+		// five explicit steps (no loop: the unwinding bound then only limits the binary-search recursion, depth <= 2 for length 3)
+		let x = letter(); kani::assume(!(x == 0.0 && x.is_sign_negative())); h = [h[1], h[2], x]; let out = m.next(&x); assert!(out == med3(h[0], h[1], h[2]));
+		let x = letter(); kani::assume(!(x == 0.0 && x.is_sign_negative())); h = [h[1], h[2], x]; let out = m.next(&x); assert!(out == med3(h[0], h[1], h[2]));
+		let x = letter(); kani::assume(!(x == 0.0 && x.is_sign_negative())); h = [h[1], h[2], x]; let out = m.next(&x); assert!(out == med3(h[0], h[1], h[2]));
+		let x = letter(); kani::assume(!(x == 0.0 && x.is_sign_negative())); h = [h[1], h[2], x]; let out = m.next(&x); assert!(out == med3(h[0], h[1], h[2]));
+		let x = letter(); kani::assume(!(x == 0.0 && x.is_sign_negative())); h = [h[1], h[2], x]; let out = m.next(&x); assert!(out == med3(h[0], h[1], h[2]));
 	}
 
 	// ---- crossing detectors: loop-free over all finite f64 (differences may overflow to +-inf, never NaN): complete ----
